@@ -51,3 +51,10 @@ Proof.
   unfold files_of. rewrite Hf. destruct (parse_mal (parse_fuel toks) toks) as [[m' r']|] eqn:E; auto.
   apply parse_mal_sound in E. destruct E as [E _]. exfalso. apply (Hbad m' r'). exact E.
 Qed.
+
+(* ---- correspondence helper: the flattening of a layout and the specification the flattened list denotes ---- *)
+Fixpoint str_nodupb (l : list string) : bool :=
+  match l with [] => true | x :: r => negb (existsb (seqb x) r) && str_nodupb r end.
+Definition flat_of (ftoks : string -> option (list tok)) (n depth : nat) (root : list tok) : option cmal :=
+  match parse_mal n root with Some (m, _) => flat (files_of ftoks) depth m | None => None end.
+Definition flat_spec (fm : cmal) : fspec := spec_dedupe (raw_of fm spec_empty).
